@@ -341,15 +341,22 @@ func TestVerifC11(t *testing.T) {
 		s := c11NewStore(t)
 		s.SetReadTimeout(4 * time.Millisecond)
 		s.SetReapThreshold(2)
-		var openStreams atomic.Int64
+		// every stream handed out by Open; the observer callback (which runs inside reap(),
+		// i.e. under the write lock) looks for one whose `closed` flag is still false. Both
+		// Close and the idle callback set that flag before they release the read lock, so a
+		// stream found open here really holds the read lock: no timing assumption involved.
+		var registry sync.Map
 		var reapWithOpen, reaps, explicitReaps atomic.Int64
 		obsCh := make(chan ReapObservation, 1024)
 		obs := NewObserver(obsCh, func(o *ReapObservation) bool {
 			// called inside reap(), while the write lock is still held
 			reaps.Add(1)
-			if openStreams.Load() > 0 {
-				reapWithOpen.Add(1)
-			}
+			registry.Range(func(k, _ interface{}) bool {
+				if !k.(*LockingStreamer).closed.Is() {
+					reapWithOpen.Add(1)
+				}
+				return true
+			})
 			return false
 		})
 		s.RegisterObserver(obs)
@@ -379,19 +386,17 @@ func TestVerifC11(t *testing.T) {
 						time.Sleep(200 * time.Microsecond) // reaper active, or the id was just consolidated away
 						continue
 					}
-					openStreams.Add(1)
-					released := false
-					release := func() {
-						if !released {
-							released = true
-							openStreams.Add(-1)
-						}
-					}
+					registry.Store(rc.(*LockingStreamer), true)
+					release := func() {}
 					// reference copy, read at once while our own read lock excludes the reaper
 					var want []byte
 					if _, rc2, err2 := s.Open(metas[0].ID); err2 == nil {
-						want, _ = io.ReadAll(rc2)
+						var rerr error
+						want, rerr = io.ReadAll(rc2)
 						rc2.Close()
+						if rerr != nil {
+							want = nil // the reference stream itself was force-closed (slow machine): nothing to compare with
+						}
 					}
 					var got []byte
 					timedOut := false
